@@ -64,6 +64,12 @@ def work(run, part, parts):
     warnings.simplefilter("ignore")
     rng = run.rng(f"ser{part}")
     n = (3000 if run.tier == "quick" else 60000) // parts
+
+    def class_defaults(c):
+        return {k: getattr(c, k, None) for k in ("alg", "digits", "period", "issuer", "label", "min_json_version", "json_version", "wallet")}
+    base_defaults = class_defaults(TOTP)
+    if base_defaults["alg"] != "sha1" or base_defaults["digits"] != 6 or base_defaults["period"] != 30 or base_defaults["issuer"] is not None:
+        run.violation("C15|using|base-class-defaults-not-rfc", f"the TOTP class itself starts with defaults {base_defaults}", {})
     for i in range(n):
         alg = rng.choice(["sha1", "sha1", "sha256", "sha512"])
         digits = rng.choice([6, 6, 7, 8, 10])
@@ -102,7 +108,17 @@ def work(run, part, parts):
         if [obj.generate(t).token for t in times] != want_tokens:
             run.violation("C15|construct|tokens-differ-from-rfc", "object built from explicit fields generates non-RFC tokens", w)
             continue
+        factory_defaults = class_defaults(factory)
         other_factory = TOTP.using(digits=9, period=77, alg="sha512", issuer="Other Org")
+        # making a customised class leaves the class it was derived from, and every sibling, untouched
+        run.count("using_isolation_checks")
+        if class_defaults(TOTP) != base_defaults:
+            run.violation("C15|using|parent-class-defaults-changed", f"TOTP.using(..) changed the defaults of TOTP itself: {base_defaults} -> {class_defaults(TOTP)}", w)
+            for k_, v_ in base_defaults.items():
+                if getattr(TOTP, k_, None) != v_:
+                    setattr(TOTP, k_, v_)
+        elif class_defaults(factory) != factory_defaults:
+            run.violation("C15|using|sibling-class-defaults-changed", f"TOTP.using(..) changed the defaults of a class made earlier: {factory_defaults} -> {class_defaults(factory)}", w)
         # ---- the three formats
         sources = {}
         try:
@@ -122,12 +138,18 @@ def work(run, part, parts):
                 ww = dict(w, format=fmt, loader=lname, source=src if not isinstance(src, dict) else {k: str(v) for k, v in src.items()})
                 rp = ("import warnings; warnings.simplefilter('ignore')\nfrom passlib.totp import TOTP\n"
                       f"src={src!r}\nt=TOTP.from_source(src)\nprint(t.label, t.issuer, t.digits, t.period, t.alg)")
+                snap = json.dumps(src, sort_keys=True, default=repr) if isinstance(src, dict) else None
                 try:
-                    back = loader(dict(src) if isinstance(src, dict) else src)
+                    back = loader(src)          # the same source object is offered to every loader in turn
                 except Exception as e:
                     run.violation(f"C15|{fmt}|{lname}|load-raises|{type(e).__name__}|label-{tclass(obj.label)}|issuer-{tclass(obj.issuer)}",
                                   f"loading the library's own {fmt} output raised {type(e).__name__}: {str(e)[:100]}", ww, rp)
                     continue
+                if snap is not None:
+                    run.count("source_dict_untouched_checks")
+                    if json.dumps(src, sort_keys=True, default=repr) != snap:
+                        run.violation(f"C15|dict|{lname}|source-modified", f"loading a dictionary changed the caller's dictionary: {snap[:120]} -> {json.dumps(src, sort_keys=True, default=repr)[:120]}", ww, rp)
+                        src = sources[fmt] = json.loads(snap)
                 expect = obj
                 ref_label = obj.label if (obj.label is not None or fmt != "uri") else "fallback label"
                 diff = same(back, obj, strip_label=(fmt == "uri"))
